@@ -69,6 +69,7 @@ T = [
 ("C05","fix: MemFS.RemoveAll released a directory between the removal of its content and its own removal","MemFS RemoveAll(/d/e) || Rename(/f,/d/e/f) || Rename(/d/x,/f/x): the Rename added the moved tree to the directory RemoveAll had just emptied and then unlinked; the tree was lost and the link counter of a file below it stayed too high"),
 ("C03","fix: MemFS.RemoveAll reported the error of the directory it was asked to empty before those found below it","MemFS.RemoveAll by a non-administrator of a directory he cannot write whose sub directory is sticky and holds entries of somebody else: EACCES (of the parent) instead of the EPERM met first below (os.RemoveAll goes depth first)"),
 ("C06","fix: Stat and Lstat read the node while its directory is read locked","Stat/Lstat || Remove of the same name (or a Rename that replaces it; also Remove followed by a re-creation of the name) returned an info with the link count already decremented: the node was read after the lock of its directory had been released (was KF-C06-004 and KF-C03-019)"),
+("C07","fix: RoFile.Sync reported","Sync on a file opened through a BasePathFS built on a RoFS panicked (FromBasePath: the error of RoFile.Sync carried the text \"not implemented\" as its path)"),
 ]
 log = subprocess.check_output(['git','-C','/repo','log','--format=%h %s','adfd2e3..HEAD']).decode().strip().split('\n')
 subj = {}
